@@ -4,7 +4,9 @@ C02 — Clean restart equivalence.
 If every write has been flushed and the worker is idle, dropping the store and
 opening it again (with any configuration: other chunk limits, other cache
 limits) yields a store that reports the same state, the same index map and the
-same chunk table, touches no file, and satisfies the journal invariant again —
+same chunk table, only syncs the chunk files it keeps (D15: one `sync "o" id true` per
+linked file; no byte, name or link changes; no change at all when every linked file was
+already durable), and satisfies the journal invariant again —
 so every later call behaves as before; any number of such cycles. If the new
 cache limits cover the `Append` records of the retained files, the reopened
 store refines the reference log again (every live entry resident), so reads
@@ -222,12 +224,26 @@ def Sys.Clean (y : Sys) : Prop :=
   ∃ s, y.store = some s ∧ y.worker.quiet = true ∧ s.pending = [] ∧ s.removed = [] ∧
     y.worker.postponed = []
 
-/-- Drop + open from a clean state, in terms of the invariants. -/
+/-- D15: `open` syncs every chunk file it keeps. When every linked file is already durable
+(the normal case) that changes nothing. -/
+theorem c02_syncAll_durable {y : Sys} {r : RefLog} (h : CSys y r)
+    (hd : ∀ f ∈ y.fs, f.linked = true → f.durable = f.data.length) :
+    y.fs.syncAll y.fs.linkedIds = y.fs :=
+  syncAll_linkedIds_self h.nodup hd
+
+/-- D15: the events of a clean `open` are only syncs of kept chunks. -/
+theorem c02_syncEvs_only (ids : List Nat) : ∀ e ∈ syncEvs ids, ∃ id, e = Ev.sync "o" id true :=
+  syncEvs_isOpenSync ids
+
+/-- Drop + open from a clean state, in terms of the invariants. (D15: the events are
+`syncEvs y.fs.linkedIds`, the file system is `y.fs.syncAll y.fs.linkedIds`; old: `[]`, `y.fs`.
+See `c02_syncAll_durable` / `c02_syncEvs_only`.) -/
 theorem c02_restart_step (y : Sys) (r : RefLog) (cfg' : Cfg) (h : CSys y r) (hc : y.Clean) :
     ∃ s s', y.store = some s ∧ ((y.step .drop).step (.openWith cfg')).store = some s' ∧
       ({ (y.step .drop) with cfg := cfg' } : Sys).open.1 = .ok () ∧
-      ({ (y.step .drop) with cfg := cfg' } : Sys).open.2.2 = [] ∧
-      (y.step .drop).fs = y.fs ∧ ((y.step .drop).step (.openWith cfg')).fs = y.fs ∧
+      ({ (y.step .drop) with cfg := cfg' } : Sys).open.2.2 = syncEvs y.fs.linkedIds ∧
+      (y.step .drop).fs = y.fs ∧
+      ((y.step .drop).step (.openWith cfg')).fs = y.fs.syncAll y.fs.linkedIds ∧
       s'.st = s.st ∧ s'.log = s.log ∧ s'.closed = s.closed ∧ s'.openOffsets = s.openOffsets ∧
       s'.pending = [] ∧ s'.removed = [] ∧ s'.cfg = cfg' ∧
       CSys ((y.step .drop).step (.openWith cfg')) r := by
@@ -244,7 +260,9 @@ outstanding. Then for every configuration `cfg'`, with `y1 := y.step .drop` and
 `y2 := y1.step (.openWith cfg')`:
 * `open` returns `ok` and `y2.store = some s'`;
 * no file is created, truncated, unlinked or written: the event list of that
-  `open` is `[]` and `y2.fs = y1.fs = y.fs` (not even a durable flag changes);
+  `open` is one `sync "o" id true` per linked chunk file (D15: `syncEvs y.fs.linkedIds`),
+  `y1.fs = y.fs` and `y2.fs = y.fs.syncAll y.fs.linkedIds` (only durable marks are
+  raised); if every linked file of `y.fs` was already durable, `y2.fs = y.fs`;
 * `s'.st = s.st = r.state`, `s'.log = s.log`;
 * `s'.closed = s.closed` (offsets AND recorded closing states) and
   `s'.openOffsets = s.openOffsets`: the last chunk is reused as the open chunk;
@@ -266,13 +284,15 @@ theorem c02_clean_restart (cfg cfg' : Cfg) (steps : List Step) (r : RefLog) (s :
     let y2 := y1.step (.openWith cfg')
     ∃ s', y2.store = some s' ∧
       ({ y1 with cfg := cfg' } : Sys).open.1 = .ok () ∧
-      ({ y1 with cfg := cfg' } : Sys).open.2.2 = [] ∧
-      y1.fs = y.fs ∧ y2.fs = y.fs ∧
+      ({ y1 with cfg := cfg' } : Sys).open.2.2 = syncEvs y.fs.linkedIds ∧
+      y1.fs = y.fs ∧ y2.fs = y.fs.syncAll y.fs.linkedIds ∧
       s'.st = s.st ∧ s'.st = r.state ∧ s'.log = s.log ∧
       s'.closed.map (·.offsets) ++ [s'.openOffsets] = s.closed.map (·.offsets) ++ [s.openOffsets] ∧
       s'.closed = s.closed ∧ s'.openOffsets = s.openOffsets ∧
       s'.pending = [] ∧ s'.removed = [] ∧ s'.cfg = cfg' ∧
-      J y2 ∧ CSys y2 r := by
+      J y2 ∧ CSys y2 r ∧
+      (∀ e ∈ ({ y1 with cfg := cfg' } : Sys).open.2.2, ∃ id, e = Ev.sync "o" id true) ∧
+      ((∀ f ∈ y.fs, f.linked = true → f.durable = f.data.length) → y2.fs = y.fs) := by
   intro y y1 y2
   have hC : CSys y r := run_CSys steps _ {} r (fresh_CSys cfg) hsteps hlegal hwf halive
   obtain ⟨s', k1, k2, k3, k4, k5, k6, k7, k8, k9, k10, k11, k12, _, _, k15, _⟩ :=
@@ -280,7 +300,8 @@ theorem c02_clean_restart (cfg cfg' : Cfg) (steps : List Step) (r : RefLog) (s :
   obtain ⟨s0, hs0, _, hinv⟩ := hC.1
   rw [hs] at hs0; cases hs0
   exact ⟨s', k1, k2, k3, k4, k5, k6, by rw [k6]; exact hinv.abs.st, k7, by rw [k8, k9], k8, k9,
-    k10, k11, k12, k15.1.J, k15⟩
+    k10, k11, k12, k15.1.J, k15, by rw [k3]; exact syncEvs_isOpenSync _,
+    fun hd => by rw [k5]; exact c02_syncAll_durable hC hd⟩
 
 /-! ### 3b. The refinement continues -/
 
@@ -466,7 +487,7 @@ theorem c02_restart_refines (y : Sys) (r : RefLog) (cfg' : Cfg) (h : CSys y r) (
     (hN : (fileAppends y.fs).length ≤ cfg'.cacheItems)
     (hB : sumLen (fileAppends y.fs) ≤ cfg'.cacheCap) :
     ∃ s', ((y.step .drop).step (.openWith cfg')).store = some s' ∧ Refines s' r ∧
-      ((y.step .drop).step (.openWith cfg')).fs = y.fs ∧
+      ((y.step .drop).step (.openWith cfg')).fs = y.fs.syncAll y.fs.linkedIds ∧
       SysRef ((y.step .drop).step (.openWith cfg')) r
         (cfg'.cacheItems - (fileAppends y.fs).length) (cfg'.cacheCap - sumLen (fileAppends y.fs)) ∧
       CSys ((y.step .drop).step (.openWith cfg')) r := by
